@@ -280,6 +280,20 @@ def verifyDeposit (K : Bytes → Bytes) (vp : Bytes → Bytes → List Bytes →
                 | none => .error .decode
                 | some param => .ok param
 
+/-- `verifyFromQuorumTx(proof, extra, hdr, sideChain)` of the quorum router: the proof part only, against the state
+root of the header that came with the deposit (and was accepted by the validator-signature check). -/
+def verifyFromQuorumTx (K : Bytes → Bytes) (vp : Bytes → Bytes → List Bytes → VpRes) (root ccmc : Bytes)
+    (proof : Option EthProof) (extra : Bytes) : Except Reject Unit :=
+  match proof with
+  | none => .error .json
+  | some p =>
+    if p.storageProofs.length ≠ 1 then .error .format
+    else
+      match verifyMerkleProof K vp p root ccmc with
+      | .error e => .error e
+      | .ok .err => .error .storProof
+      | .ok .absent => .error .absent
+      | .ok (.val v) => if !checkProofResult v (K extra) then .error .valueHash else .ok ()
 /-- `verifyFromEthTx(native, proof, extra, fromChainID, height, sideChain)` over the light-client store `s`
 (`root` projects the state root out of a stored header); `proof = none` is a JSON error. -/
 def verifyFromEthTx (K : Bytes → Bytes) (vp : Bytes → Bytes → List Bytes → VpRes) (root : Hdr H R → Bytes)
